@@ -4,11 +4,13 @@ package main
 
 import (
 	"bytes"
+	"context"
 	"encoding/json"
 	"fmt"
 	"reflect"
 	"runtime/debug"
 	"strings"
+	"time"
 
 	"github.com/traefik/yaegi/interp"
 	"github.com/traefik/yaegi/stdlib"
@@ -126,6 +128,17 @@ func callerR(s *scn, fn reflect.Value) {
 }
 
 // fetch obtains a script symbol through the access path of the scenario.
+// interlude selects (deterministically, from the scenario itself) one in twelve of the
+// host-calls-script scenarios for the cancelled-evaluation interlude.
+func interlude(s *scn) bool {
+	b, _ := json.Marshal(s)
+	h := 0
+	for _, c := range b {
+		h = (h*31 + int(c)) % 1000003
+	}
+	return h%12 == 0
+}
+
 func fetch(i *interp.Interpreter, name, acc string) (reflect.Value, error) {
 	switch acc {
 	case "symbols":
@@ -247,6 +260,20 @@ func observe(s *scn, full bool) (o obs) {
 			want := mainR(s).Type()
 			if fn.Type() != want {
 				return fmt.Errorf("F obtained through %s has type %v, want %v", s.Acc, fn.Type(), want)
+			}
+			// In one in twelve of these scenarios the host, between obtaining the function and
+			// calling it, has another evaluation cancelled and then evaluates something: a
+			// cancelled evaluation is a stuttering step for earlier definitions (Defs.tla,
+			// C10), so the prediction is unchanged.
+			if interlude(s) {
+				ctx, cancel := context.WithCancel(context.Background())
+				go func() { time.Sleep(4 * time.Millisecond); cancel() }()
+				i.EvalWithContext(ctx, "for {}")
+				cancel()
+				time.Sleep(5 * time.Millisecond)
+				if _, err := i.Eval("1"); err != nil {
+					return fmt.Errorf("eval after a cancelled evaluation: %w", err)
+				}
 			}
 			callerR(s, fn)
 			return nil
